@@ -114,6 +114,8 @@ def enc(cmds, sc=SC, exact=True):
                 vs.append(int(round(a)))
                 continue
             v = a * sc
+            if not (abs(v) < 2 ** 31 - 2):      # TLC has 32-bit integers (also catches inf / nan)
+                return None
             r = int(round(v))
             if exact and abs(v - r) > 1e-6:
                 return None
